@@ -264,6 +264,24 @@ static void check_modes(const std::string& t, const Outcome& ref, Outcome& cref_
                 std::string g = mv_text(to_mv(sorted));
                 if (ec || g != dv) report("staj-object", t, none, Outcome{g, errs(ec)}, Outcome{dv, ""}, "staj_object_iterator members differ from decoded value (first duplicate wins):");
             }
+            // the same iterators over a stream cursor with every buffer size (keys and values then live in buffers that are refilled
+            // and in the parser's token buffer, not in one stable string)
+            for (size_t k = 1; k <= t.size() + 1; ++k) {
+                ++g_eval;
+                std::error_code ec; std::istringstream is(t);
+                jsoncons::json_stream_cursor c(jsoncons::stream_source<char>(is, k), g_opts, ec);
+                if (whole.is_array()) {
+                    std::string got = "[";
+                    if (!ec) { auto it = jsoncons::staj_array_iterator<json>(c, ec); bool first = true; for (; !ec && it != jsoncons::staj_array_iterator<json>(); it.increment(ec)) { if (!first) got += ","; first = false; got += mv_text(to_mv(*it)); } }
+                    got += "]";
+                    if (ec || got != dv) { report("staj-array-stream" + std::to_string(k), t, none, Outcome{got, errs(ec)}, Outcome{dv, ""}, "staj_array_iterator over a stream cursor differs from the decoded value:"); break; }
+                } else if (whole.is_object()) {
+                    json sorted(jsoncons::json_object_arg);
+                    if (!ec) { auto it = jsoncons::staj_object_iterator<std::string, json>(c, ec); for (; !ec && it != jsoncons::staj_object_iterator<std::string, json>(); it.increment(ec)) { sorted.try_emplace(it->first, it->second); } }
+                    std::string g = mv_text(to_mv(sorted));
+                    if (ec || g != dv) { report("staj-object-stream" + std::to_string(k), t, none, Outcome{g, errs(ec)}, Outcome{dv, ""}, "staj_object_iterator over a stream cursor differs from the decoded value:"); break; }
+                } else break;
+            }
             // filtered view: drop nothing -> same events; drop keys -> events minus keys
             {
                 std::error_code ec; jsoncons::json_string_cursor c(t, g_opts, ec);
